@@ -169,6 +169,8 @@ def run(ctx):
                     g = va.args[2][0].single_atom()
                     if g is not None and len(g.args) >= 2 and va.args[1].single_atom() is not None \
                             and va.args[1].single_atom().kind == 'elem':
+                        if any(o.data['value'] == e.data['value'] for o, _ in out):
+                            continue   # the same filtered list bound to a second name (a temporary)
                         out.append((e, T.mk_and(list(g.args[1:]))))
         return out
     fa, fb = trims(I), trims(IR)
